@@ -349,10 +349,12 @@ impl Config {
             exit_on_stdin_close: false,
             license_file: None,
         };
-        config.load_env()?;
+        // the role flags have to be known when the environment is evaluated: running as leader or
+        // follower implies persistence
         if let Some(args) = args {
             config.apply_args(args);
         }
+        config.load_env()?;
 
         match load_license(config.license_file.as_deref()).await {
             Ok(license) => {
